@@ -8,8 +8,10 @@ import (
 	"os"
 	"os/exec"
 	"path/filepath"
+	"regexp"
 	"strings"
 	"sync"
+	"sync/atomic"
 	"time"
 )
 
@@ -43,7 +45,7 @@ var solvers = []solverCfg{
 
 func runSolver(ctx context.Context, sc solverCfg, file string, ms, seed int) (status, output string, secs float64) {
 	args := sc.args(file, ms, seed)
-	cctx, cancel := context.WithTimeout(ctx, time.Duration(ms+3000)*time.Millisecond)
+	cctx, cancel := context.WithTimeout(ctx, time.Duration(ms+2000)*time.Millisecond)
 	defer cancel()
 	cmd := exec.CommandContext(cctx, args[0], args[1:]...)
 	var out bytes.Buffer
@@ -53,12 +55,25 @@ func runSolver(ctx context.Context, sc solverCfg, file string, ms, seed int) (st
 	_ = cmd.Run()
 	secs = time.Since(t0).Seconds()
 	output = out.String()
-	first := strings.TrimSpace(strings.SplitN(output, "\n", 2)[0])
+	if len(output) > 20000 {
+		output = output[:20000]
+	}
+	first := ""
+	for _, l := range strings.Split(output, "\n") {
+		l = strings.TrimSpace(l)
+		if l == "sat" || l == "unsat" || l == "unknown" || l == "timeout" {
+			first = l
+			break
+		}
+	}
 	switch first {
 	case "unsat", "sat", "unknown":
 		return first, output, secs
 	case "timeout":
 		return "timeout", output, secs
+	}
+	if ctx.Err() != nil {
+		return "cancelled", output, secs
 	}
 	if cctx.Err() != nil {
 		return "timeout", output, secs
@@ -70,32 +85,48 @@ func runSolver(ctx context.Context, sc solverCfg, file string, ms, seed int) (st
 }
 
 type Solver struct {
-	dir     string
-	seed    int
-	quickMs int
-	fullMs  int
-	sem     chan struct{}
-	mu      sync.Mutex
-	perSolver map[string]int
+	dir        string
+	seed       int
+	quickMs    int // per-query budget of the race stages
+	fullMs     int // last-resort budget
+	sem        chan struct{}
+	mu         sync.Mutex
+	perSolver  map[string]int
 	solverSecs float64
+	fastOnly   bool
+	nfile      int64
+	maxCubes   int
+	lastResort bool // run the final full-budget race (thorough tier)
 }
 
 func newSolver(dir string, seed, fullMs int, par int) *Solver {
 	os.MkdirAll(dir, 0o755)
-	return &Solver{dir: dir, seed: seed, quickMs: 2000, fullMs: fullMs, sem: make(chan struct{}, par), perSolver: map[string]int{}}
+	return &Solver{dir: dir, seed: seed, quickMs: 2500, fullMs: fullMs, sem: make(chan struct{}, par), perSolver: map[string]int{}, maxCubes: 40}
+}
+
+func (ex *Exec) preludeText(o *Obl, relaxed bool) (string, bool) {
+	var b strings.Builder
+	b.WriteString(smtHeader(ex.ar.intMode, nil))
+	dropped := false
+	for _, l := range ex.q.lines[:o.Pos] {
+		if relaxed && (strings.Contains(l, "(forall ") || strings.Contains(l, "(exists ")) {
+			dropped = true
+			continue
+		}
+		b.WriteString(l)
+		b.WriteString("\n")
+	}
+	return b.String(), dropped
 }
 
 func (ex *Exec) queryText(o *Obl, withModel bool, pre string) string {
+	p, _ := ex.preludeText(o, false)
 	var b strings.Builder
 	b.WriteString(pre)
 	if withModel {
 		b.WriteString("(set-option :produce-models true)\n")
 	}
-	b.WriteString(smtHeader(ex.ar.intMode, nil))
-	for _, l := range ex.q.lines[:o.Pos] {
-		b.WriteString(l)
-		b.WriteString("\n")
-	}
+	b.WriteString(p)
 	b.WriteString("(assert " + o.Reach + ")\n")
 	if !o.Cover {
 		b.WriteString("(assert (not " + o.Cond + "))\n")
@@ -107,72 +138,87 @@ func (ex *Exec) queryText(o *Obl, withModel bool, pre string) string {
 	return b.String()
 }
 
-func (s *Solver) solve(ex *Exec, o *Obl) *Verdict {
-	s.sem <- struct{}{}
-	defer func() { <-s.sem }()
-	text := ex.queryText(o, false, "")
-	h := sha256.Sum256([]byte(text))
-	file := filepath.Join(s.dir, fmt.Sprintf("%x.smt2", h[:8]))
-	os.WriteFile(file, []byte(text), 0o644)
-	v := &Verdict{Obl: o, File: file}
-	// stage 1: z3-new, short timeout
-	st, out, secs := runSolver(context.Background(), solvers[0], file, s.quickMs, s.seed)
-	s.account(solvers[0].name, secs, st == "unsat" || (o.Cover && st == "sat"))
-	v.Status, v.Solver, v.Seconds, v.Output = st, solvers[0].name, secs, out
-	if st == "unsat" || (st == "sat" && o.Cover) {
-		os.Remove(file)
-		return v
+var symRe = regexp.MustCompile(`[A-Za-z_][A-Za-z0-9_.!]*`)
+
+// slicedText: cone-of-influence slice of the prelude for one goal. Only the
+// definitions the goal depends on are kept, together with the assumptions
+// that mention a symbol of that cone (two rounds). Dropping assumptions only
+// weakens the hypotheses, so unsat of the slice implies unsat of the query.
+func (ex *Exec) slicedText(o *Obl, relaxed bool) string {
+	lines := ex.q.lines[:o.Pos]
+	type def struct {
+		idx  int
+		syms []string
 	}
-	if st == "sat" && !ex.usesQuant && !ex.q.usesUF {
-		// quantifier-free: a model is definitive
-		return v
-	}
-	// stage 2: race all solvers with the full timeout
-	type res struct {
-		st, out, name string
-		secs          float64
-	}
-	ctx, cancel := context.WithCancel(context.Background())
-	defer cancel()
-	ch := make(chan res, len(solvers))
-	files := []string{}
-	for _, sc := range solvers {
-		f := file
-		if sc.pre != "" {
-			f = file + "." + sc.name + ".smt2"
-			os.WriteFile(f, []byte(sc.pre+text), 0o644)
-			files = append(files, f)
-		}
-		go func(sc solverCfg, f string) {
-			st, out, secs := runSolver(ctx, sc, f, s.fullMs, s.seed)
-			ch <- res{st, out, sc.name, secs}
-		}(sc, f)
-	}
-	best := res{st: "unknown"}
-	for range solvers {
-		r := <-ch
-		s.account(r.name, r.secs, r.st == "unsat")
-		if r.st == "unsat" || (o.Cover && r.st == "sat") {
-			best = r
-			break
-		}
-		if r.st == "sat" && best.st != "sat" {
-			best = r
-		} else if best.st == "unknown" && r.st == "timeout" {
-			best = r
-		} else if best.out == "" {
-			best = r
+	defs := map[string]*def{}
+	var asserts []int
+	symsOf := func(s string) []string { return symRe.FindAllString(s, -1) }
+	lineSyms := make([][]string, len(lines))
+	for i, l := range lines {
+		switch {
+		case strings.HasPrefix(l, "(define-fun "):
+			f := strings.SplitN(l[12:], " ", 2)
+			lineSyms[i] = symsOf(f[1])
+			defs[f[0]] = &def{i, lineSyms[i]}
+		case strings.HasPrefix(l, "(assert "):
+			if relaxed && hasQuant(l) {
+				continue
+			}
+			lineSyms[i] = symsOf(l[8:])
+			asserts = append(asserts, i)
 		}
 	}
-	cancel()
-	for _, f := range files {
-		os.Remove(f)
+	cone := map[string]bool{}
+	keep := map[int]bool{}
+	var visit func(sym string)
+	visit = func(sym string) {
+		if cone[sym] {
+			return
+		}
+		cone[sym] = true
+		if d, ok := defs[sym]; ok {
+			keep[d.idx] = true
+			for _, s := range d.syms {
+				visit(s)
+			}
+		}
 	}
-	v.Status, v.Solver, v.Seconds, v.Output = best.st, best.name, v.Seconds+best.secs, best.out
-	if v.Status == "unsat" || (o.Cover && v.Status == "sat") {
-		os.Remove(file)
+	for _, s := range symsOf(o.Reach + " " + o.Cond) {
+		visit(s)
 	}
-	return v
+	for round := 0; round < 2; round++ {
+		var add []int
+		for _, i := range asserts {
+			if keep[i] {
+				continue
+			}
+			for _, s := range lineSyms[i] {
+				if cone[s] && (strings.Contains(s, "!") || defs[s] != nil) {
+					add = append(add, i)
+					break
+				}
+			}
+		}
+		for _, i := range add {
+			keep[i] = true
+			for _, s := range lineSyms[i] {
+				visit(s)
+			}
+		}
+	}
+	var b strings.Builder
+	b.WriteString(smtHeader(ex.ar.intMode, nil))
+	for i, l := range lines {
+		if keep[i] || strings.HasPrefix(l, "(declare-") {
+			b.WriteString(l)
+			b.WriteString("\n")
+		}
+	}
+	return b.String()
+}
+
+func hasQuant(s string) bool {
+	return strings.Contains(s, "(forall ") || strings.Contains(s, "(exists ")
 }
 
 func (s *Solver) account(name string, secs float64, won bool) {
@@ -182,6 +228,282 @@ func (s *Solver) account(name string, secs float64, won bool) {
 	if won {
 		s.perSolver[name]++
 	}
+}
+
+func (s *Solver) tmpFile(text string) string {
+	n := atomic.AddInt64(&s.nfile, 1)
+	h := sha256.Sum256([]byte(text))
+	f := filepath.Join(s.dir, fmt.Sprintf("q%d-%x.smt2", n, h[:6]))
+	os.WriteFile(f, []byte(text), 0o644)
+	return f
+}
+
+type raceRes struct {
+	st, out, name string
+	secs          float64
+}
+
+// race runs the given solvers on one query text; the first definitive answer
+// (unsat, or sat when wantSat / trustSat) wins and the others are killed.
+func (s *Solver) race(text string, which []int, ms int, lambda bool, accept func(st string) bool) raceRes {
+	ctx, cancel := context.WithCancel(context.Background())
+	defer cancel()
+	file := s.tmpFile(text)
+	defer os.Remove(file)
+	ch := make(chan raceRes, len(which))
+	n := 0
+	for _, i := range which {
+		sc := solvers[i]
+		if sc.name == "cvc5" && lambda {
+			continue
+		}
+		n++
+		f := file
+		if sc.pre != "" {
+			f = file + "." + sc.name + ".smt2"
+			os.WriteFile(f, []byte(sc.pre+text), 0o644)
+			defer os.Remove(f)
+		}
+		go func(sc solverCfg, f string) {
+			select {
+			case s.sem <- struct{}{}:
+			case <-ctx.Done():
+				ch <- raceRes{"cancelled", "", sc.name, 0}
+				return
+			}
+			st, out, secs := runSolver(ctx, sc, f, ms, s.seed)
+			<-s.sem
+			ch <- raceRes{st, out, sc.name, secs}
+		}(sc, f)
+	}
+	best := raceRes{st: "unknown"}
+	for k := 0; k < n; k++ {
+		r := <-ch
+		if r.st != "cancelled" {
+			s.account(r.name, r.secs, accept(r.st))
+		}
+		if accept(r.st) {
+			cancel()
+			// drain
+			go func(rest int) {
+				for j := 0; j < rest; j++ {
+					<-ch
+				}
+			}(n - k - 1)
+			return r
+		}
+		switch {
+		case r.st == "sat" && best.st != "sat":
+			best = r
+		case best.st == "unknown" && (r.st == "timeout" || r.st == "unknown"):
+			if best.name == "" || r.st == "timeout" {
+				best = r
+			}
+		case best.name == "" && r.st != "cancelled":
+			best = r
+		}
+	}
+	return best
+}
+
+func isUnsat(st string) bool { return st == "unsat" }
+
+// solve decides one obligation (DESIGN §2.6, revised):
+//  0. quantifier-free relaxation (assumptions with quantifiers dropped): unsat is definitive;
+//  1. race of the solvers on the full query with a short budget;
+//  2. conjunctive goals are proved conjunct by conjunct;
+//  3. adaptive case split (cubes) on the branch conditions of the function;
+//  4. one last race with the full budget.
+func (s *Solver) solve(ex *Exec, o *Obl) *Verdict {
+	v := &Verdict{Obl: o}
+	t0 := time.Now()
+	defer func() { v.Seconds = time.Since(t0).Seconds() }()
+	lam := ex.usesLambda
+	all := []int{0, 1, 2}
+	zs := []int{0, 1}
+	if o.Cover {
+		// vacuity query: expected sat. Decided on the relaxation when quantifiers are present
+		p, _ := ex.preludeText(o, true)
+		r := s.race(p+"(assert "+o.Reach+")\n(check-sat)\n", zs, s.fullMs, lam, func(st string) bool { return st == "sat" || st == "unsat" })
+		v.Status, v.Solver, v.Output = r.st, r.name+"(qf-relaxed)", r.out
+		return v
+	}
+	goal := "(assert " + o.Reach + ")\n(assert (not " + o.Cond + "))\n(check-sat)\n"
+	// stage 0a: cone-of-influence slice
+	{
+		r := s.race(ex.slicedText(o, false)+goal, []int{0, 1}, s.quickMs, lam, isUnsat)
+		if r.st == "unsat" {
+			v.Status, v.Solver, v.Output = "unsat", r.name+"(sliced)", r.out
+			return v
+		}
+	}
+	// stage 0
+	if !hasQuant(o.Cond) && !hasQuant(o.Reach) {
+		if p, dropped := ex.preludeText(o, true); dropped {
+			r := s.race(p+goal, []int{0}, s.quickMs, lam, isUnsat)
+			if r.st == "unsat" {
+				v.Status, v.Solver, v.Output = "unsat", r.name+"(qf-relaxed)", r.out
+				return v
+			}
+		}
+	}
+	full, _ := ex.preludeText(o, false)
+	trustSat := !ex.usesQuant && !ex.q.usesUF && !hasQuant(o.Cond)
+	// stage 1
+	r := s.race(full+goal, all, s.quickMs, lam, func(st string) bool { return st == "unsat" || (trustSat && st == "sat") })
+	v.Status, v.Solver, v.Output = r.st, r.name, r.out
+	if r.st == "unsat" || (r.st == "sat" && trustSat) {
+		return v
+	}
+	if s.fastOnly {
+		return v
+	}
+	keep := func() {
+		// keep the query for inspection
+		v.File = filepath.Join(s.dir, "open-"+sanitize(o.Name)+".smt2")
+		if len(v.File) > 220 {
+			v.File = v.File[:220] + ".smt2"
+		}
+		os.WriteFile(v.File, []byte(full+goal), 0o644)
+	}
+	// stage 2: conjuncts
+	if parts := splitAnd(o.Cond); len(parts) > 1 && !o.noSplit {
+		vs := make([]*Verdict, len(parts))
+		var wg sync.WaitGroup
+		for i, p := range parts {
+			wg.Add(1)
+			go func(i int, p string) {
+				defer wg.Done()
+				sub := *o
+				sub.Cond = p
+				sub.noSplit = true
+				vs[i] = s.solve(ex, &sub)
+			}(i, p)
+		}
+		wg.Wait()
+		v.Status, v.Solver = "unsat", fmt.Sprintf("split(%d)", len(parts))
+		for _, pv := range vs {
+			if pv.Status != "unsat" {
+				v.Status, v.Output, v.Solver = pv.Status, pv.Output, pv.Solver+" in conjunct"
+				v.File = pv.File
+			}
+		}
+		return v
+	}
+	// stage 3: cubes
+	var conds []string
+	for _, b := range ex.branches {
+		if b.pos <= o.Pos {
+			conds = append(conds, b.name)
+		}
+	}
+	if len(conds) > 10 {
+		conds = conds[len(conds)-10:]
+	}
+	if len(conds) > 0 {
+		var leaves int64
+		st := s.cube(ex, full, goal, nil, conds, &leaves, lam, trustSat)
+		if st == "unsat" {
+			v.Status, v.Solver = "unsat", fmt.Sprintf("cubes(%d)", leaves)
+			return v
+		}
+		if st == "sat" && trustSat {
+			v.Status, v.Solver = "sat", "cubes"
+			keep()
+			return v
+		}
+	}
+	// stage 4
+	if !s.lastResort {
+		v.Status = "timeout"
+		keep()
+		return v
+	}
+	r = s.race(full+goal, all, s.fullMs, lam, func(st string) bool { return st == "unsat" || (trustSat && st == "sat") })
+	v.Status, v.Solver, v.Output = r.st, r.name, r.out
+	if r.st != "unsat" {
+		keep()
+	}
+	return v
+}
+
+// cube: prove prelude ∧ assumed ∧ goal unsat by adaptive case splitting on
+// conds. Returns "unsat" only if every leaf is unsat.
+func (s *Solver) cube(ex *Exec, prelude, goal string, assumed []string, conds []string, leaves *int64, lam, trustSat bool) string {
+	if atomic.LoadInt64(leaves) > int64(s.maxCubes) {
+		return "timeout"
+	}
+	var b strings.Builder
+	b.WriteString(prelude)
+	for _, a := range assumed {
+		b.WriteString("(assert " + a + ")\n")
+	}
+	b.WriteString(goal)
+	if len(assumed) > 0 {
+		atomic.AddInt64(leaves, 1)
+		r := s.race(b.String(), []int{0, 1}, s.quickMs, lam, func(st string) bool { return st == "unsat" || (trustSat && st == "sat") })
+		if r.st == "unsat" || (r.st == "sat" && trustSat) {
+			return r.st
+		}
+	}
+	if len(conds) == 0 || len(assumed) >= 8 {
+		return "timeout"
+	}
+	c := conds[0]
+	res := make([]string, 2)
+	var wg sync.WaitGroup
+	for i, lit := range []string{c, "(not " + c + ")"} {
+		wg.Add(1)
+		go func(i int, lit string) {
+			defer wg.Done()
+			res[i] = s.cube(ex, prelude, goal, append(append([]string{}, assumed...), lit), conds[1:], leaves, lam, trustSat)
+		}(i, lit)
+	}
+	wg.Wait()
+	for _, r := range res {
+		if r == "sat" {
+			return "sat"
+		}
+	}
+	if res[0] == "unsat" && res[1] == "unsat" {
+		return "unsat"
+	}
+	return "timeout"
+}
+
+// splitAnd flattens a top-level conjunction (and a b ...) into its conjuncts.
+func splitAnd(c string) []string {
+	c = strings.TrimSpace(c)
+	if !strings.HasPrefix(c, "(and ") || !balanced(c[1:len(c)-1]) {
+		return []string{c}
+	}
+	body := c[5 : len(c)-1]
+	var parts []string
+	depth := 0
+	start := 0
+	for i := 0; i < len(body); i++ {
+		switch body[i] {
+		case '(':
+			depth++
+		case ')':
+			depth--
+		case ' ':
+			if depth == 0 {
+				if i > start {
+					parts = append(parts, body[start:i])
+				}
+				start = i + 1
+			}
+		}
+	}
+	if start < len(body) {
+		parts = append(parts, body[start:])
+	}
+	var out []string
+	for _, p := range parts {
+		out = append(out, splitAnd(p)...)
+	}
+	return out
 }
 
 func (s *Solver) solveAll(ex *Exec, obls []*Obl) []*Verdict {
